@@ -236,6 +236,46 @@ def semantics_table(srv, res, known, rng):
     expect("number-argument-zadd-score", "redis.call('ZADD', KEYS[1], 1700000000.123456, 'm') return tostring(tonumber(redis.call('ZSCORE', KEYS[1], 'm')) == 1700000000.123456)",
            b"true", keys=[b"t:z"])
     expect("number-argument-lrange-index", "redis.call('RPUSH', KEYS[1], 'a', 'b', 'c') return redis.call('LRANGE', KEYS[1], 0, -1)", [b"a", b"b", b"c"], keys=[b"t:nl"])
+    # redis.pcall of a command that scripts may not run gives the script an error table and the script goes on
+    for cmd in ("'SELECT', '1'", "'BLPOP', 't:nolist', '0'", "'SUBSCRIBE', 'ch'", "'MULTI'", "'CONFIG', 'GET', 'dir'", "'EVAL', 'return 1', '0'", "'SAVE'",
+                "'NOSUCHCOMMAND'", "'GET'", "'INCR', 't:list0'"):
+        c.cmd("DEL", "t:after-pcall")
+        c.cmd("DEL", "t:list0")
+        c.cmd("RPUSH", "t:list0", "x")
+        got = ev("local r = redis.pcall(%s) redis.call('SET', KEYS[1], 'went-on') return (type(r) == 'table' and r.err ~= nil) and 1 or 0" % cmd, keys=[b"t:after-pcall"])
+        after = c.cmd("GET", "t:after-pcall")
+        res.evaluations += 1
+        res.cell("table", "pcall-refused-then-continue", cmd.split(",")[0].strip("'"))
+        if got != 1 or after != b"went-on":
+            _report(res, known, "table/pcall-refused-command-aborts-script", "local r = redis.pcall(%s) redis.call('SET', k, 'went-on') return <r is an error table> -> %s, "
+                    "k = %s; pcall never raises: expected 1 and 'went-on'" % (cmd, resp.show(got), resp.show(after)))
+    # a key past its deadline is as absent to a script as it is to the client that sends the script
+    c.cmd("SELECT", "5")
+    c.cmd("FLUSHDB")
+    c.cmd("MSET", "alive:1", "v", "alive:2", "v")
+    for i in range(6):
+        c.cmd("SET", "dead:%d" % i, "v", "PX", "60")
+    c.cmd("RPUSH", "dead:list", "x")
+    c.cmd("PEXPIRE", "dead:list", "60")
+    time.sleep(0.09)
+    for tag, script, direct in (("DBSIZE", "return redis.call('DBSIZE')", [b"DBSIZE"]),
+                                ("KEYS", "return #redis.call('KEYS', '*')", None),
+                                ("EXISTS", "return redis.call('EXISTS', 'dead:3')", [b"EXISTS", b"dead:3"]),
+                                ("TYPE", "return redis.call('TYPE', 'dead:list')", None),
+                                ("LLEN", "return redis.call('LLEN', 'dead:list')", [b"LLEN", b"dead:list"]),
+                                ("GET", "return redis.call('GET', 'dead:4') or 'absent'", None),
+                                ("SETNX", "return redis.call('SETNX', 'dead:5', 'fresh')", None)):
+        got = ev(script)
+        want = {"DBSIZE": 2, "KEYS": 2, "EXISTS": 0, "TYPE": b"none", "LLEN": 0, "GET": b"absent", "SETNX": 1}[tag]
+        d = c.cmd(*direct) if direct else None
+        res.evaluations += 1
+        res.cell("table", "dead-key-in-script", tag)
+        gv = got.s if isinstance(got, Status) else got
+        if gv != want or (direct and d != want):
+            _report(res, known, "table/dead-key-visible-to-script/%s" % tag, "8 keys with a 60 ms TTL, 90 ms later (untouched, the sweeper may not have come by): "
+                    "%s -> %s, the direct command -> %s, expected %s" % (script, resp.show(got), resp.show(d), resp.show(want)))
+    c.cmd("FLUSHDB")
+    c.cmd("SELECT", "0")
     # failing redis.call aborts with an error reply; earlier effects persist, later ones are absent
     c.cmd("DEL", "t:before", "t:after", "t:list")
     c.cmd("RPUSH", "t:list", "x")
